@@ -223,6 +223,8 @@ def step_mutants(step, join_types=("inner", "left", "right", "full", "cross", "o
                 w("partition_drop", partition_by=pb[:-1] if len(pb) > 1 else 1)
             if pb == 1:
                 w("partition_one_vs_none", partition_by=None)
+            if pb is None and not ob:
+                w("partition_none_vs_one", partition_by=1)
             if len(ob) >= 2:
                 w("order_by_order", order_by=list(reversed(ob)))
             if ob:
@@ -563,6 +565,10 @@ class K3Eq(Suite):
                 "x.is_in([2, 1])", "x.is_in([1, 2, 3])", "x.mapv({1: 2, 3: 4}, 0)", "x.mapv({3: 4, 1: 2}, 0)",
                 "x.mapv({1.0: 2, 3.0: 4}, 0)", "x.mapv({1: 2, 3: 5}, 0)", "x.mapv({1: 2, 3: 4}, 1)", "g == 'a'",
                 "g == 'b'", "y + 0.5", "(x + 1) * 2", "x + 1 * 2")]
+        # a window over the whole table (partition_by=1) next to the same un-windowed step, for operators that do not
+        # themselves imply a window: only the node's windowed_situation flag tells the two apart
+        fam[1:1] = [[ext([["z", "x + 1"]], 1)]]
+        fam += [[ext([["z", "x.abs()"]])], [ext([["z", "x.abs()"]], 1)], [ext([["z", "x.abs()"]], ["g"])]]
         fam += [[ext([["u", "x + 1"], ["v", "x + 2"]])], [ext([["v", "x + 2"], ["u", "x + 1"]])],
                 [ext([["u", "x + 1"]])], [ext([["u", "x + 1"]]), ext([["v", "x + 2"]])]]
         fam += [[ext([["z", "x.cumsum()"]], pb, ["x"], rv)] for pb in (["g"], ["g", "y"], ["y", "g"], 1)
@@ -589,9 +595,26 @@ class K3Eq(Suite):
                               ([["s", "x.sum()"]], ["g", "u"]), ([["s", "x.sum()"]], ["u", "g"]))]
         fam += [[]]
         pipes_ = [{"table": "d", "steps": st} for st in fam]
+
+        # record maps with BOTH sides given (blocks -> blocks), differing in one side only
+        def spec(cols, rows):
+            return {"control": {"cols": cols, "kinds": ["str"] * len(cols), "rows": [[{"s": v} for v in r] for r in rows]},
+                    "record_keys": ["k"], "control_keys": [cols[0]], "strict": True}
+
+        T["e"] = {"cols": ["k", "measure", "value"], "kinds": ["int", "str", "int"],
+                  "rows": [[{"i": 1}, {"s": "m1"}, {"i": 10}], [{"i": 1}, {"s": "m2"}, {"i": 20}],
+                           [{"i": 2}, {"s": "m1"}, {"i": 30}], [{"i": 2}, {"s": "m2"}, {"i": 40}]]}
+        bi = spec(["measure", "value"], [["m1", "a"], ["m2", "b"]])
+        bi2 = spec(["measure", "value"], [["m1", "b"], ["m2", "a"]])
+        for i_, o_ in ((bi, spec(["mk", "mv"], [["n1", "a"], ["n2", "b"]])), (bi, spec(["mk", "mv"], [["n1", "a"], ["n3", "b"]])),
+                       (bi, spec(["mk", "mv"], [["n1", "b"], ["n2", "a"]])), (bi2, spec(["mk", "mv"], [["n1", "a"], ["n2", "b"]])),
+                       (bi, spec(["mk", "mw"], [["n1", "a"], ["n2", "b"]])), (bi, None), (None, None)):
+            if i_ is None and o_ is None:
+                continue
+            pipes_.append({"table": "e", "steps": [{"call": "convert_records", "blocks_in": i_, "blocks_out": o_}]})
         for i, p in enumerate(pipes_):
             for j, q in enumerate(pipes_):
-                if band is not None and (abs(i - j) > band or (i == j and i % 8)):
+                if band is not None and (abs(i - j) > (band if p["table"] == "d" else 5) or (i == j and i % 8)):
                     continue
                 yield {"tables": T, "p": p, "q": copy.deepcopy(q), "kind": "small_scope" + ("_same" if i == j else "")}
 
